@@ -62,11 +62,11 @@ func c17Cases(tier string) []*space.Case {
 		{"qualified-configured", "github.com/acme/pkg/wrappers.Traits", "Traits"},
 		{"underscores-default", "my_pkg/sub_dir.Path_Value2", ""},
 	}
-	positions := []string{"P0", "P1nullable", "P2nonnull", "P3listval", "P3listptr", "P4mapval", "P4mapptr"}
+	positions := []string{"P0", "P1nullable", "P2nonnull", "P3listval", "P3listptr", "P4mapval", "P4mapptr", "P6embedval", "P6embedptr"}
 	for si, sh := range shapes {
 		for ti, ty := range types {
 			for pi, pos := range positions {
-				if tier != "thorough" && (si+ti+pi)%2 == 1 && pos != "P0" {
+				if tier != "thorough" && (si+ti+pi)%2 == 1 && pos != "P0" && !(pos == "P6embedptr" && ti == 0) {
 					continue
 				}
 				fld := sh.mk()
@@ -94,10 +94,19 @@ func c17Cases(tier string) []*space.Case {
 						sub.Nullable = dsl.B(false)
 					case "P4mapptr":
 						sub.Card = dsl.Map
+					case "P6embedval":
+						sub.Name, sub.Embed = "Inner", true
+						sub.Nullable = dsl.B(false)
+					case "P6embedptr":
+						sub.Name, sub.Embed = "Inner", true
 					}
 					root.Fields = []*dsl.Field{sub, {Name: "Side", Num: 2, T: dsl.String}}
 					f = space.Close(&dsl.File{GettersOff: true, Messages: []*dsl.Message{root, inner}})
 					path = "Root.Sub.X"
+					if sub.Embed {
+						// the children of an embedded message are addressed through the containing message
+						path = "Root.X"
+					}
 				}
 				c := space.BaseConfig("Root")
 				c.CustomTypes = map[string]string{path: ty.typ}
@@ -109,6 +118,12 @@ func c17Cases(tier string) []*space.Case {
 				add(fmt.Sprintf("config/%s/%s/%s", sh.name, ty.name, pos), f, c)
 			}
 		}
+	}
+	// proto-option custom fields inside nullable / by-value embedded messages and their hosts
+	for _, c := range space.F4()[3:6] {
+		n := *c
+		n.Label = "C17/" + c.Label
+		out = append(out, &n)
 	}
 	return out
 }
